@@ -6,6 +6,7 @@ import (
 
 	"github.com/ipld/go-ipld-prime"
 	"github.com/ipld/go-ipld-prime/codec/dagcbor"
+	"github.com/ipld/go-ipld-prime/codec/dagjson"
 	"github.com/ipld/go-ipld-prime/datamodel"
 	cidlink "github.com/ipld/go-ipld-prime/linking/cid"
 	"github.com/ipld/go-ipld-prime/node/basicnode"
@@ -92,5 +93,81 @@ func genCbor(c *Ctx) {
 			backW = WNode(back)
 		}
 		c.Emit("cbor/rnd", WList(WStr("codec"), WNode(nd)), WList(WBytes(enc), backW))
+	}
+	// DAG-JSON: the model's encoder (DagJson.v) against go-ipld-prime's dagjson on nodes without floats, and its
+	// reference decoder against dagjson.Decode on those bytes
+	var genj func(depth int) datamodel.Node
+	genj = func(depth int) datamodel.Node {
+		k := c.R.Intn(10)
+		if depth == 0 && k >= 7 {
+			k = c.R.Intn(7)
+		}
+		switch k {
+		case 0:
+			return datamodel.Null
+		case 1:
+			return basicnode.NewBool(c.R.Bool())
+		case 2:
+			bounds := []int64{0, 1, 9, 10, 99, 100, 255, 65536, 4294967296, 9007199254740991, 9007199254740992, math.MaxInt64}
+			v := bounds[c.R.Intn(len(bounds))] - int64(c.R.Intn(2))
+			if v < 0 {
+				v = 0
+			}
+			if c.R.Bool() {
+				return basicnode.NewInt(-v - int64(c.R.Intn(2)))
+			}
+			return basicnode.NewInt(v)
+		case 3, 4:
+			pieces := []string{"a", "b", " ", "\"", "\\", "/", "\n", "\r", "\t", "\x00", "\x01", "\x1f", "\x7f", "é", "日本", "\u2028", "\u2029", "\ufffd", "𐐀", "<", "&", "u", "\\u0041"}
+			if c.R.Chance(10) {
+				pieces = append(pieces, "\xff", "\xc3", "\xed\xa0\x80")
+			}
+			var sb bytes.Buffer
+			for i, n := 0, c.R.Intn(6); i < n; i++ {
+				sb.WriteString(pieces[c.R.Intn(len(pieces))])
+			}
+			return basicnode.NewString(sb.String())
+		case 5:
+			return basicnode.NewBytes(c.R.Bytes([]int{0, 1, 2, 3, 4, 5, 31, 32, 33}[c.R.Intn(9)]))
+		case 6:
+			return basicnode.NewLink(cidlink.Link{Cid: fakeCid(c.R.Intn(5))})
+		case 7, 8:
+			n := c.R.Intn(4)
+			items := make([]datamodel.Node, n)
+			for i := range items {
+				items[i] = genj(depth - 1)
+			}
+			return mkList(items...)
+		default:
+			n := c.R.Intn(5)
+			keys := []string{"a", "b", "aa", "ab", "B", "", "zz", "z", "aaa", "é", "10", "9", "bytes", "a\"b", "\n"}
+			if c.R.Chance(5) {
+				keys = append(keys, "/")
+			}
+			seen := map[string]bool{}
+			var es []ent
+			for i := 0; i < n; i++ {
+				k := keys[c.R.Intn(len(keys))]
+				if seen[k] {
+					continue
+				}
+				seen[k] = true
+				es = append(es, ent{k, genj(depth - 1)})
+			}
+			return mkMap(es...)
+		}
+	}
+	for i := 0; i < n; i++ {
+		nd := genj(3)
+		enc, err := ipld.Encode(nd, dagjson.Encode)
+		if err != nil {
+			continue
+		}
+		back, err := ipld.Decode(enc, dagjson.Decode)
+		backW := WNull
+		if err == nil {
+			backW = WNode(back)
+		}
+		c.Emit("json/rnd", WList(WStr("json"), WNode(nd)), WList(WBytes(enc), backW))
 	}
 }
